@@ -91,6 +91,21 @@ Progs == CASE Family = "elif3" -> { <<n>> : n \in Elifs3 }
            [] Family = "elifloop" -> { << [t |-> "for", key |-> "x", val |-> "", e |-> Var(<<"l3">>), rev |-> FALSE, sorted |-> FALSE,
                                           body |-> <<n, T(<<",">>)>>, empty |-> <<>>] >> : n \in Elifs }
 
+\* (family "stale") an execution that fails in the middle of a loop - after cycle / ifchanged have run a number of times -
+\* followed by an execution of the same compiled template with another context: the second starts afresh
+StaleLeaves == << [t |-> "cycle", args |-> <<Lit(S(<<"a">>)), Lit(S(<<"b">>)), Lit(S(<<"c">>))>>, as |-> "", silent |-> FALSE],
+                  [t |-> "cycle", args |-> <<Lit(S(<<"a">>)), Lit(S(<<"b">>))>>, as |-> "cy", silent |-> TRUE],
+                  [t |-> "ifchanged", args |-> <<>>, body |-> <<T(<<"k">>)>>, els |-> <<>>],
+                  [t |-> "ifchanged", args |-> <<Var(<<"n1">>)>>, body |-> <<T(<<"C">>)>>, els |-> <<T(<<"s">>)>>],
+                  [t |-> "ifchanged", args |-> <<Var(<<"x">>)>>, body |-> <<T(<<"C">>)>>, els |-> <<T(<<"s">>)>>] >>
+\* 6 / (x + m2v) fails when x = 2 (m2v is -2)
+FailAtTwo == Out(Bin("/", Lit(I(6)), Bin("+", Var(<<"x">>), Var(<<"m2v">>))))
+StaleCtx1 == Ctx @@ [m2v |-> I(0 - 2), lf |-> L(<<I(3), I(2), I(3)>>)]
+StaleCtx2 == Ctx @@ [m2v |-> I(0 - 2), lf |-> L(<<I(3), I(4), I(5), I(3)>>)]
+StaleProg(lf, nest) ==
+  LET inner == [t |-> "for", key |-> "x", val |-> "", e |-> Var(<<"lf">>), rev |-> FALSE, sorted |-> FALSE,
+                body |-> <<StaleLeaves[lf], Out(Var(<<"cy">>)), FailAtTwo, T(<<";">>)>>, empty |-> <<>>] IN
+  IF nest THEN << [t |-> "for", key |-> "y", val |-> "", e |-> Var(<<"l1">>), rev |-> FALSE, sorted |-> FALSE, body |-> <<inner>>, empty |-> <<>>] >> ELSE <<inner>>
 \* initial states are enumerated by one thread; the rendering is done in the (parallel) second step
 VARIABLES prog, go
 Init ==
@@ -111,10 +126,15 @@ Init ==
               LET mid == [ForNode(it2, rv2, so(it2), 1, inner) EXCEPT !.body = <<inner, T(<<";">>)>>] IN
               IF Family = "forfor" THEN it3 = 3 /\ prog = <<mid>>
               ELSE prog = << [ForNode(it3, FALSE, so(it3), 1, mid) EXCEPT !.body = <<mid, T(<<"|">>)>>] >>
+       ELSE IF Family = "stale" THEN \E lf \in 1..Len(StaleLeaves), nest \in BOOLEAN : prog = StaleProg(lf, nest)
        ELSE prog \in Progs
 Next == go = FALSE /\ go' = TRUE /\ UNCHANGED prog
 
 Res == Render(prog, Ctx)
 Balanced == go => (ScopesBalanced(Res) /\ DepthBalanced(Res))
-EmitVec == go => PrintT(ToJson([m |-> "C09", prog |-> prog, ctx |-> Ctx, out |-> Res.out, err |-> Res.err, evs |-> Res.evs]))
+EmitVec == go => IF Family = "stale"
+                   THEN LET r1 == Render(prog, StaleCtx1) r2 == Render(prog, StaleCtx2) IN
+                        PrintT(ToJson([m |-> "C09", prog |-> prog, ctx |-> StaleCtx1, out |-> r1.out, err |-> r1.err,
+                                       ctx2 |-> StaleCtx2, out2 |-> r2.out, err2 |-> r2.err, tags |-> <<"stale">>]))
+                   ELSE PrintT(ToJson([m |-> "C09", prog |-> prog, ctx |-> Ctx, out |-> Res.out, err |-> Res.err, evs |-> Res.evs]))
 =============================================================================
